@@ -157,6 +157,13 @@ struct smoothed_aggr_emin {
             }
         }
 
+        // Invert the filtered diagonal. A vanishing entry disables the
+        // smoothing of the corresponding row/column instead of producing
+        // non-finite operators (same convention as in smoothed_aggregation).
+#pragma omp parallel for
+        for(Idx i = 0; i < static_cast<Idx>(Af.nrows); ++i)
+            dia[i] = math::is_zero(dia[i]) ? math::zero<Val>() : math::inverse(dia[i]);
+
         std::vector<Val> omega;
 
         auto P = interpolation(Af, dia, *P_tent, omega);
@@ -176,7 +183,7 @@ struct smoothed_aggr_emin {
         template <class AMatrix, typename Val, typename Col, typename Ptr>
         static std::shared_ptr< backend::crs<Val, Col, Ptr> >
         interpolation(
-                const AMatrix &A, const std::vector<Val> &Adia,
+                const AMatrix &A, const std::vector<Val> &Adia /* inverted */,
                 const backend::crs<Val, Col, Ptr> &P_tent,
                 std::vector<Val> &omega
                 )
@@ -207,7 +214,7 @@ struct smoothed_aggr_emin {
                     // Form current row of ADAP matrix.
                     for(auto a = A.row_begin(ia); a; ++a) {
                         Col ca  = a.col();
-                        Val va  = math::inverse(Adia[ca]) * a.value();
+                        Val va  = Adia[ca] * a.value();
 
                         for(auto p = AP->row_begin(ca); p; ++p) {
                             Col c = p.col();
@@ -263,7 +270,7 @@ struct smoothed_aggr_emin {
             }
 
             for(size_t i = 0, m = omega.size(); i < m; ++i)
-                omega[i] = math::inverse(denum[i]) * omega[i];
+                omega[i] = math::is_zero(denum[i]) ? math::zero<Val>() : math::inverse(denum[i]) * omega[i];
 
             // Update AP to obtain P: P = (P_tent - D^-1 A P Omega)
             /*
@@ -274,7 +281,7 @@ struct smoothed_aggr_emin {
              */
 #pragma omp parallel for
             for(ptrdiff_t i = 0; i < static_cast<ptrdiff_t>(n); ++i) {
-                Val dia = math::inverse(Adia[i]);
+                Val dia = Adia[i];
 
                 for(Ptr ja = AP->ptr[i],    ea = AP->ptr[i+1],
                         jp = P_tent.ptr[i], ep = P_tent.ptr[i+1];
@@ -305,7 +312,7 @@ struct smoothed_aggr_emin {
         template <typename AMatrix, typename Val, typename Col, typename Ptr>
         static std::shared_ptr< backend::crs<Val, Col, Ptr> >
         restriction(
-                const AMatrix &A, const std::vector<Val> &Adia,
+                const AMatrix &A, const std::vector<Val> &Adia /* inverted */,
                 const backend::crs<Val, Col, Ptr> &P_tent,
                 const std::vector<Val> &omega
                 )
@@ -334,7 +341,7 @@ struct smoothed_aggr_emin {
                    )
                 {
                     Col ca = RA->col[ja];
-                    Val va = -w * math::inverse(Adia[ca]) * RA->val[ja];
+                    Val va = -w * Adia[ca] * RA->val[ja];
 
                     for(; jr < er; ++jr) {
                         Col cr = R_tent->col[jr];
